@@ -203,6 +203,10 @@ pub struct WriterSpec {
     pub start_delay_us: u64,
     /// (frame, pause before appending it in us)
     pub frames: Vec<(FrameSpec, u64)>,
+    /// after each append, remove the stored frame this writer appended `lag` appends earlier:
+    /// cursors held by last-id readers then name frames that are gone
+    #[serde(default)]
+    pub remove_lag: Option<u8>,
 }
 
 #[derive(Debug, Serialize, Deserialize, Clone, PartialEq, Default)]
@@ -244,6 +248,9 @@ pub struct ScenarioSpec {
 pub struct WriterResult {
     /// per frame: (t_start_us, t_end_us, Ok(frame) | Err(msg))
     pub appends: Vec<(u64, u64, Result<WFrame, String>)>,
+    /// ids this writer removed again (see WriterSpec::remove_lag)
+    #[serde(default)]
+    pub removed: Vec<String>,
 }
 
 #[derive(Debug, Serialize, Deserialize, Clone)]
@@ -418,7 +425,8 @@ pub fn run_scenario(ex: &mut crate::exec::Executor, spec: ScenarioSpec) -> serde
             if ws.start_delay_us > 0 {
                 std::thread::sleep(Duration::from_micros(ws.start_delay_us));
             }
-            let mut appends = Vec::new();
+            let mut appends: Vec<(u64, u64, Result<WFrame, String>)> = Vec::new();
+            let mut removed: Vec<String> = Vec::new();
             for (spec, pause) in ws.frames {
                 if pause > 0 {
                     std::thread::sleep(Duration::from_micros(pause));
@@ -433,13 +441,27 @@ pub fn run_scenario(ex: &mut crate::exec::Executor, spec: ScenarioSpec) -> serde
                 };
                 let t2 = t0.elapsed().as_micros() as u64;
                 appends.push((t1, t2, res));
+                if let Some(lag) = ws.remove_lag {
+                    let n = appends.len();
+                    if n > lag as usize {
+                        if let (_, _, Ok(old)) = &appends[n - 1 - lag as usize] {
+                            if old.ttl != Some(WTtl::Ephemeral) {
+                                if let Ok(id) = old.id.parse::<Scru128Id>() {
+                                    if store.remove(&id).is_ok() {
+                                        removed.push(old.id.clone());
+                                    }
+                                }
+                            }
+                        }
+                    }
+                }
             }
-            WriterResult { appends }
+            WriterResult { appends, removed }
         }));
     }
     let writers: Vec<WriterResult> = wthreads
         .into_iter()
-        .map(|t| t.join().unwrap_or(WriterResult { appends: vec![] }))
+        .map(|t| t.join().unwrap_or(WriterResult { appends: vec![], removed: vec![] }))
         .collect();
     let writers_done_at_us = now_us();
     writers_done.store(true, Ordering::SeqCst);
